@@ -1327,14 +1327,22 @@ impl DhtNetworkManager {
         best_nodes.push(self.local_dht_node());
         self.mark_self_queried(&mut queried_nodes);
 
-        // Start with local knowledge
-        let initial = self.find_closest_nodes_local(key, count).await;
+        // Start with local knowledge - all of it, not just the `count` closest entries:
+        // when some of those do not answer, the next-closest known peers must still
+        // get their turn (candidates are queried closest first).
+        let initial = self
+            .find_closest_nodes_local(key, MAX_CANDIDATE_NODES)
+            .await;
         let mut candidates: VecDeque<DHTNode> = VecDeque::new();
         for node in initial {
             queued_peer_ids.insert(node.peer_id.clone());
             candidates.push_back(node);
         }
         let mut previous_candidate_snapshot: Option<BTreeSet<String>> = None;
+
+        if count == 0 {
+            return Ok(Vec::new());
+        }
 
         for iteration in 0..MAX_ITERATIONS {
             if candidates.is_empty() {
@@ -1345,15 +1353,35 @@ impl DhtNetworkManager {
                 break;
             }
 
-            // Select up to ALPHA unqueried nodes to query
+            // Select up to ALPHA unqueried nodes to query, closest first. The lookup is
+            // finished only when no known candidate could still improve the result: the
+            // first candidate that is no closer than the farthest of K collected nodes
+            // ends it, because every remaining candidate is farther still.
+            candidates
+                .make_contiguous()
+                .sort_by(|a, b| Self::compare_node_distance(a, b, key));
             let mut batch: Vec<DHTNode> = Vec::new();
-            while batch.len() < ALPHA && !candidates.is_empty() {
-                if let Some(node) = candidates.pop_front() {
-                    queued_peer_ids.remove(&node.peer_id);
-                    if !queried_nodes.contains(&node.peer_id) {
-                        batch.push(node);
-                    }
+            while batch.len() < ALPHA {
+                let Some(node) = candidates.pop_front() else {
+                    break;
+                };
+                queued_peer_ids.remove(&node.peer_id);
+                if queried_nodes.contains(&node.peer_id) {
+                    continue;
                 }
+                let cannot_improve = best_nodes.len() >= count
+                    && best_nodes.last().is_some_and(|worst| {
+                        matches!(
+                            Self::compare_node_distance(&node, worst, key),
+                            std::cmp::Ordering::Equal | std::cmp::Ordering::Greater
+                        )
+                    });
+                if cannot_improve {
+                    candidates.clear();
+                    queued_peer_ids.clear();
+                    break;
+                }
+                batch.push(node);
             }
 
             if batch.is_empty() {
@@ -1395,9 +1423,12 @@ impl DhtNetworkManager {
                 match result {
                     Ok(DhtNetworkResult::NodesFound { nodes, .. }) => {
                         self.record_peer_success(&peer_id).await;
-                        // Add successful node to best_nodes
+                        // Add successful node to best_nodes, keeping the list sorted so that
+                        // `.last()` below really is the farthest of the best K
                         if let Some(queried_node) = batch.iter().find(|n| n.peer_id == peer_id) {
                             best_nodes.push(queried_node.clone());
+                            best_nodes.sort_by(|a, b| Self::compare_node_distance(a, b, key));
+                            best_nodes.truncate(count);
                         }
                         for mut node in nodes {
                             Self::ensure_cached_dht_key(&mut node);
@@ -1454,8 +1485,9 @@ impl DhtNetworkManager {
             best_nodes.truncate(count);
 
             if !found_new_closer {
-                info!("[NETWORK] Converged after {} iterations", iteration + 1);
-                break;
+                // Nothing new was learned this round; candidates that are already queued
+                // and could still improve the result are queried in the next rounds.
+                trace!("[NETWORK] No new candidates in iteration {}", iteration + 1);
             }
 
             let snapshot: BTreeSet<String> = queued_peer_ids.iter().cloned().collect();
